@@ -10,7 +10,7 @@ contract(P + "DaughtersDict.__init__", types={"iterable": "any", "kwds": "dict"}
          ensures=[
              # from a name -> count mapping: the entries with a positive count, same counts
              "implies(typ(iterable, 'dict', 'obj:DaughtersDict'), forallv(lambda k: dhas(self, k) == (dhas(iterable, k) and dget(iterable, k) > 0)))",
-             "implies(typ(iterable, 'dict', 'obj:DaughtersDict'), forallv(lambda k: implies(dhas(self, k), dget(self, k) == dget(iterable, k))))",
+             "implies(typ(iterable, 'dict', 'obj:DaughtersDict'), forallv(lambda k: implies(dhas(self, k), same(dget(self, k), dget(iterable, k)))))",
              # from a list / tuple of names: every name with its multiplicity
              "implies(typ(iterable, 'list', 'tuple'), forallv(lambda k: dhas(self, k) == (count_of(iterable, k) >= 1)))",
              "implies(typ(iterable, 'list', 'tuple'), forallv(lambda k: implies(dhas(self, k), dget(self, k) == count_of(iterable, k))))",
@@ -25,8 +25,46 @@ contract(P + "DaughtersDict.charge_conjugate", types={"pdg_name": "bool"},
          ensures=[
              "isfresh(result)",
              # each particle is conjugated with its multiplicity ...
-             "forallv(lambda p: implies(dhas(self, p), dhas(result, ccname(as_ty(p, 'str'), pdg_name)) and dget(result, ccname(as_ty(p, 'str'), pdg_name)) == dget(self, p)))",
+             "forallv(lambda p: implies(dhas(self, p), dhas(result, ccname(as_ty(p, 'str'), pdg_name)) and same(dget(result, ccname(as_ty(p, 'str'), pdg_name)), dget(self, p))))",
              # ... and nothing else appears
              "forallv(lambda q: implies(dhas(result, q), existsv(lambda p: dhas(self, p) and ccname(as_ty(p, 'str'), pdg_name) == q)))",
+             "is_final_state(result)",
          ],
          returns="obj:DaughtersDict", properties=["C04"])
+
+META_INV = ["typ(self.metadata, 'dict')", "dhas(self.metadata, 'model') and dhas(self.metadata, 'model_params')",
+            "not dhas(self.metadata, 'bf') and not dhas(self.metadata, 'daughters') and not dhas(self.metadata, 'fs') and not dhas(self.metadata, 'self')"]
+
+contract(P + "DecayMode.__init__", types={"bf": "any", "daughters": "any", "info": "dict"},
+         requires=["typ(daughters, 'none', 'dict', 'obj:DaughtersDict', 'list', 'tuple')",
+                   "implies(typ(daughters, 'dict', 'obj:DaughtersDict'), forallv(lambda k: implies(dhas(daughters, k), typ(dget(daughters, k), 'int'))))",
+                   # daughters given explicitly (the `fs=` keyword route is covered by from_dict)
+                   "not dhas(info, 'fs')", "not dhas(info, 'bf') and not dhas(info, 'daughters') and not dhas(info, 'self')"],
+         ensures=[
+             "same(self.bf, bf)",
+             "isfresh(self.daughters)",
+             "implies(typ(daughters, 'dict', 'obj:DaughtersDict'), forallv(lambda k: dhas(self.daughters, k) == (dhas(daughters, k) and dget(daughters, k) > 0)))",
+             "implies(typ(daughters, 'dict', 'obj:DaughtersDict'), forallv(lambda k: implies(dhas(self.daughters, k), same(dget(self.daughters, k), dget(daughters, k)))))",
+             "implies(typ(daughters, 'list', 'tuple'), forallv(lambda k: dhas(self.daughters, k) == (count_of(daughters, k) >= 1)))",
+             "implies(typ(daughters, 'list', 'tuple'), forallv(lambda k: implies(dhas(self.daughters, k), dget(self.daughters, k) == count_of(daughters, k))))",
+             # every keyword becomes metadata; model / model_params default to ''
+             "isfresh(self.metadata)",
+             "forallv(lambda k: dhas(self.metadata, k) == (k == 'model' or k == 'model_params' or dhas(info, k)))",
+             "forallv(lambda k: implies(dhas(info, k), same(dget(self.metadata, k), dget(info, k))))",
+             "implies(not dhas(info, 'model'), dget(self.metadata, 'model') == '')",
+             "implies(not dhas(info, 'model_params'), dget(self.metadata, 'model_params') == '')",
+         ] + META_INV,
+         modifies=["self"], modifies_fields=["bf", "daughters", "metadata"], returns="none", properties=["C11", "C04"])
+
+contract(P + "DecayMode.charge_conjugate", types={"pdg_name": "bool"},
+         requires=META_INV + ["is_final_state(self.daughters)",
+                              "forallv(lambda a, b: implies(dhas(self.daughters, a) and dhas(self.daughters, b) and a != b, ccname(as_ty(a, 'str'), pdg_name) != ccname(as_ty(b, 'str'), pdg_name)))"],
+         ensures=[
+             "isfresh(result)", "same(result.bf, self.bf)", "isfresh(result.daughters)", "isfresh(result.metadata)",
+             "forallv(lambda p: implies(dhas(self.daughters, p), dhas(result.daughters, ccname(as_ty(p, 'str'), pdg_name)) and same(dget(result.daughters, ccname(as_ty(p, 'str'), pdg_name)), dget(self.daughters, p))))",
+             "forallv(lambda q: implies(dhas(result.daughters, q), existsv(lambda p: dhas(self.daughters, p) and ccname(as_ty(p, 'str'), pdg_name) == q)))",
+             # all metadata kept (model information and every user key)
+             "forallv(lambda k: dhas(result.metadata, k) == dhas(self.metadata, k))",
+             "forallv(lambda k: implies(dhas(self.metadata, k), same(dget(result.metadata, k), dget(self.metadata, k))))",
+         ],
+         returns="obj:DecayMode", properties=["C04"])
